@@ -118,15 +118,30 @@ def cases(seed, tier, shard, nshards):
                 d['c'].append({'t': 'raw', 'src': '\\begin{verbatim}\n%s\n\\end{verbatim}' % raw, 'expect': raw, 'marker': m})
             else:
                 d['c'].append({'t': 'raw', 'src': 'Wq%dx \\verb|%s| Wq%dx' % (k + 100, raw, k + 200), 'expect': raw, 'marker': m})
+        # program listings (package listings): with and without the optional highlighter (pygments) being importable
+        lst = r.random() < 0.3
+        pre = ''
+        if lst:
+            pre = '\\usepackage{listings}\n'
+            for _ in range(r.randint(1, 2)):
+                k += 1
+                m = 'Wq%dx' % k
+                raw = r.choice(VERB_RAW).replace('M', m)
+                opt = r.choice(['', '', '[language=Python]', '[language=zqnolang]'])
+                if r.random() < 0.6:
+                    d['c'].append({'t': 'raw', 'src': '\\begin{lstlisting}%s\n%s\n\\end{lstlisting}' % (opt, raw), 'expect': raw, 'marker': m})
+                else:
+                    d['c'].append({'t': 'raw', 'src': 'Wq%dx \\lstinline|%s| Wq%dx' % (k + 100, raw, k + 200), 'expect': raw, 'marker': m})
         setup_ = r.choice(SETUPS)
-        src = docs.latex(d)
+        src = docs.latex(d, extra_preamble=pre)
         docs.ADV_ON[0] = False
         try:
-            bare = docs.latex(d)
+            bare = docs.latex(d, extra_preamble=pre)
         finally:
             docs.ADV_ON[0] = True
         yield {'src': src, 'bare': bare, 'leaves': leaves_of(d), 'renderer': setup_[0], 'theme': setup_[1], 'escape': r.random() < 0.4,
-               'encoding': r.choice(['utf-8', 'utf-8', 'ascii', 'latin-1']), 'level': r.choice([-10, 1, 2])}
+               'encoding': r.choice(['utf-8', 'utf-8', 'ascii', 'latin-1']), 'level': r.choice([-10, 1, 2]),
+               'pygments': (r.choice(['present', 'absent']) if lst else 'n/a')}
 
 
 def nows(s):
@@ -152,6 +167,14 @@ def run(case, st):
           ('files', 'split-level'): case['level']}
     st.feature('settings', '%s/%s/esc=%s/%s' % (case['renderer'], case['theme'], case['escape'], case['encoding']))
     outs = []
+    restore_pygments = None
+    if case.get('pygments') == 'absent':
+        # the optional dependency is missing: the package keeps working and the templates print the plain listing
+        import plasTeX.Packages.listings as LST
+        restore_pygments = (LST, LST.pygments)
+        LST.pygments = None
+    if case.get('pygments', 'n/a') != 'n/a':
+        st.feature('listings', 'pygments-' + case['pygments'])
     try:
         for src in (case['src'], case['bare']):
             try:
@@ -232,6 +255,8 @@ def run(case, st):
             st.violation(kind, case, '%s/%s escape=%s encoding=%s: %s' % (case['renderer'], case['theme'], case['escape'], case['encoding'], msg))
         return {'nontrivial': len(case['leaves']) >= 3, 'sample': {'leaves': [l[0] for l in case['leaves'][:5]], 'renderer': case['renderer']}}
     finally:
+        if restore_pygments:
+            restore_pygments[0].pygments = restore_pygments[1]
         for o in outs:
             o.cleanup()
 
